@@ -176,4 +176,17 @@ theorem pull_terminates (hT : TermOK T F) (hrec : T.usesRecovery = false) :
             have hM : termM F = (F + 1) * (F + 1) + F + 2 := rfl
             omega
 
+/-- from the initial configuration, without error recovery -/
+theorem init_terminates (hT : TermOK T F) (hrec : T.usesRecovery = false) (input : List Item)
+    (hin : ∀ t k, Item.tok t ∈ input → t.kind = some k → k < T.nTerm)
+    (haf : termAccFuel F input.length ≤ af) :
+    ∃ n c r, n ≤ termBound F input.length ∧
+      run T af failAt startLoc n (init startLoc input) .pull = (c, .done r) ∧ r ≠ .panic .outOfFuel := by
+  obtain ⟨n, c, r, hrun, hr, hn⟩ := pull_terminates (af := af) (failAt := failAt) (startLoc := startLoc)
+    hT hrec input (init startLoc input) rfl hin .base haf
+  refine ⟨n, c, r, ?_, hrun, hr⟩
+  have : (init startLoc input).states.length = 1 := rfl
+  rw [this, Nat.mul_one] at hn
+  exact hn
+
 end LalrpopModel.LR.Term
